@@ -1,5 +1,6 @@
 import QiVerif.Driver.Util
 import QiVerif.Model.Message
+import QiVerif.Props.C01Write
 namespace QiVerif.Driver.C01
 open QiVerif QiVerif.Driver QiVerif.Message
 
@@ -71,6 +72,22 @@ def run (max : Nat) (args : List String) : String :=
     | some bs =>
       let out := readLoop max k.toNat! (if bs.isEmpty then [] else [.data bs false]) []
       " ".intercalate (out.map (fun w => if w == "refused" then "err" else w))
+  -- the writer takes at most `k` bytes per call and reports nothing (a short write without an error): `WriteN` goes on
+  -- with the rest; the outcome and everything the writer has taken (Props/C01Write: writeN_pieces, writeN_prefix)
+  | "msg.pieces" :: k :: mg :: id :: sz :: ver :: ty :: fl :: sv :: ob :: ac :: p :: sched =>
+    match parseHex p with
+    | none => "bad-op"
+    | some pl =>
+      let h : Header := ⟨mg.toNat!, id.toNat!, sz.toNat!, ver.toNat!, ty.toNat!, fl.toNat!, sv.toNat!, ob.toNat!, ac.toNat!⟩
+      -- `sched`: the sizes of the first pieces, then `k` for the rest; a last entry "eof" / "err": the call after them
+      -- takes `k` bytes and reports the end of the stream / an error
+      let nums := sched.filterMap (fun w => if w == "eof" || w == "err" then none else some (⟨w.toNat!, .none⟩ : QiVerif.WriteN.WResp))
+      let tail : List QiVerif.WriteN.WResp :=
+        if sched.getLast? == some "eof" then [⟨k.toNat!, .eof⟩]
+        else if sched.getLast? == some "err" then [⟨k.toNat!, .other⟩]
+        else QiVerif.WriteN.pieces k.toNat! (28 + pl.length)
+      let (r, got) := QiVerif.C01Write.writeThrough ⟨h, pl⟩ (nums ++ tail)
+      (match r with | .ok _ => "ok " | .error _ => "err ") ++ toHex got
   | "msg.wfail" :: _ :: _ :: _ :: _ :: _ :: _ :: _ :: _ :: _ :: _ :: _ :: _ :: rest =>
     -- the message before went to a writer that failed (its Write reports an error or too few bytes): an error for
     -- that one; this one is its own header and payload in one write, whatever happened before (`writeMsg` has no state)
